@@ -394,7 +394,7 @@ val rsq_from_qv : n -> qvec -> rsq outcome
 
 val rsq_new : n -> n list -> rsq outcome
 
-val rsq_default : rsq
+val rsq_default : n -> rsq outcome
 
 val rsq_len : rsq -> n
 
